@@ -542,7 +542,9 @@ def r5_hierarchy_components_consistent(ctx):
     for fname, comp in (("ancestors", ":ancestors"), ("descendants", ":descendants"), ("parents", ":parents")):
         (hn, tn), body = arity(fname, 2)
         gets = [f for b in body for f in L.walk(b) if L.head(f) == "get-in"]
-        ok = bool(gets) and all(len(g.items) >= 3 and L.is_sym(g.items[1], hn) and g.items[2].text() == f"[{comp} {tn}]" for g in gets)
+        # tag's own entry is read; any further lookup (the superclasses of a class) is in the same component
+        ok = any(len(g.items) >= 3 and L.is_sym(g.items[1], hn) and g.items[2].text() == f"[{comp} {tn}]" for g in gets) and all(
+            len(g.items) >= 3 and L.is_sym(g.items[1], hn) and isinstance(g.items[2], L.Vec) and len(g.items[2].items) == 2 and g.items[2].items[0].text() == comp for g in gets)
         ctx.ob("C18.R5", f"{CORE}::{fname}::reads h[{comp}][tag]", CORE, defs[fname].line, ok,
                "" if ok else f"{fname} does not read the {comp} component for its tag")
     (hn, tn, pn), body = arity("isa?", 3)
@@ -697,7 +699,104 @@ def r6_best_match_is_the_unique_most_specific(ctx):
     ctx.note(f"C18.R6 interpreted get_method {n_eval} times")
 
 
+def _mentions(form, name):
+    return any(isinstance(x, L.Sym) and x.val == name for x in L.walk(form))
+
+
+@rule("C18.R7", floor=4)
+def r7_isa_ancestors_default_shapes(ctx):
+    """Three places where the best-match search gets its relation and its fallback from:
+    (a) isa? on two vectors is component-wise *and* needs equal lengths -- an element-wise walk
+        alone stops at the shorter vector, so [] and [::a] `isa` every longer vector and the method
+        for the longer vector is chosen (or reported ambiguous) instead of the default;
+    (b) the ancestors of a class are its superclasses *and* what those superclasses were derived
+        from, otherwise isa? is not transitive across a derive on a base class;
+    (c) defmulti passes the :default option through unless it is absent -- an `or` replaces a
+        default dispatch value of false or nil."""
+    defs = L.top_defs(ctx.lisp(CORE))
+    for nm in ("isa?", "ancestors", "defmulti"):
+        if nm not in defs:
+            raise AnalysisError(f"anchor vanished: core.lpy::{nm}")
+    # (a)
+    isa = defs["isa?"]
+    ar = [(p, b) for p, b in L.fn_arities(isa) if len(p.items) == 3]
+    if not ar:
+        raise AnalysisError("anchor vanished: isa? [h tag parent]")
+    params, body = ar[0]
+    tn, pn = params.items[1].val, params.items[2].val
+    clauses = [f for b in body for f in L.walk(b) if isinstance(f, L.List) and L.head(f) == "and"
+               and any(x.text() == f"(vector? {tn})" for x in f.items) and any(x.text() == f"(vector? {pn})" for x in f.items)]
+    if not clauses:
+        raise AnalysisError("isa?: the clause for two vectors is not of the recognised shape (and (vector? tag) (vector? parent) ...)")
+    for c in clauses:
+        same_len = [x for x in c.items if isinstance(x, L.List) and L.head(x) in ("=", "==") and {y.text() for y in x.items[1:]} == {f"(count {tn})", f"(count {pn})"}]
+        walk_i = next((i for i, x in enumerate(c.items) if any(isinstance(y, L.List) and L.head(y) in ("map", "mapv", "every?") for y in L.walk(x))), None)
+        ok = bool(same_len) and (walk_i is None or c.items.index(same_len[0]) < walk_i)
+        ctx.ob("C18.R7", f"{CORE}::isa?::vectors are compared component-wise only when their lengths agree", CORE, c.line, ok,
+               "" if ok else "the vector clause walks the two vectors together without comparing their lengths: the walk ends with the shorter one, so (isa? [] [::a ::b]) and (isa? [::a] [::a ::b]) are true",
+               witness="(defmulti area (fn [& args] (mapv type args))) (defmethod area [python/int python/int] [w h] (* w h)) (defmethod area :default [& _] :unsupported) (area 3) => TypeError from the two-argument method")
+    # (b)
+    anc = defs["ancestors"]
+    ar = [(p, b) for p, b in L.fn_arities(anc) if len(p.items) == 2]
+    if not ar:
+        raise AnalysisError("anchor vanished: ancestors [h tag]")
+    params, body = ar[0]
+    hn, tn = params.items[0].val, params.items[1].val
+    ifs = [f for b in body for f in L.walk(b) if isinstance(f, L.List) and L.head(f) == "if" and len(f.items) >= 3 and f.items[1].text() == f"(class? {tn})"]
+    if not ifs:
+        raise AnalysisError("ancestors: no (if (class? tag) ...) branch")
+    for f in ifs:
+        then = f.items[2]
+        uses_supers = any(x.text() == f"(supers {tn})" for x in L.walk(then))
+        # a lookup of the hierarchy's :ancestors component under a key other than tag itself
+        def looks_up_other(x):
+            if not isinstance(x, L.List) or not x.items:
+                return False
+            t = x.text()
+            if L.head(x) == "get-in" and len(x.items) >= 3 and isinstance(x.items[2], L.Vec) and len(x.items[2].items) == 2 and x.items[2].items[0].text() == ":ancestors":
+                return x.items[1].text() == hn and x.items[2].items[1].text() != tn
+            if L.head(x) == "get" and len(x.items) >= 3 and x.items[1].text() in (f"(:ancestors {hn})", f"({hn} :ancestors)"):
+                return x.items[2].text() != tn
+            if L.head(x) in ("ancestors",) and len(x.items) == 3 and x.items[1].text() == hn:
+                return x.items[2].text() != tn
+            return False
+        inherited = any(looks_up_other(x) for x in L.walk(then))
+        ok = uses_supers and inherited
+        ctx.ob("C18.R7", f"{CORE}::ancestors::a class inherits what its superclasses were derived from", CORE, f.line, ok,
+               "" if ok else ("the class branch adds (supers tag) but never looks the superclasses up in the hierarchy's :ancestors: after (derive Base ::thing) a subclass of Base is not ::thing" if uses_supers else "the class branch no longer adds the superclasses"),
+               witness="(derive Base ::thing) (isa? Sub ::thing) => false for a Python subclass Sub of Base")
+    # (c)
+    dm = defs["defmulti"]
+    ctor = [f for f in L.walk(dm) if isinstance(f, L.List) and f.items and f.items[0].text().endswith("multifn/MultiFunction")]
+    if not ctor or len(ctor[0].items) < 4:
+        raise AnalysisError("defmulti: the MultiFunction constructor template is not of the recognised shape")
+    arg = ctor[0].items[3]
+    expr = arg.form if isinstance(arg, L.Wrap) and arg.tag == "unquote" else arg
+    txt = expr.text()
+    opts = next((x.val for x in L.walk(expr) if isinstance(x, L.Sym) and x.val not in ("or", "get", "if", "contains?", "if-some", "some?", "nil?", "find", "val", "let", "if-let")), "opts")
+    good = {f"(get {opts} :default :default)", f"(:default {opts} :default)", f"(if (contains? {opts} :default) (:default {opts}) :default)",
+            f"(if (contains? {opts} :default) (get {opts} :default) :default)"}
+    falsey_lost = isinstance(expr, L.List) and (L.head(expr) == "or" or (L.head(expr) in ("if", "if-let", "if-some", "when") and "contains?" not in txt and "find" not in txt))
+    if txt not in good and not falsey_lost:
+        raise AnalysisError(f"defmulti: the default dispatch value expression `{txt}` is neither a recognised pass-through nor a recognised truthiness test")
+    ctx.ob("C18.R7", f"{CORE}::defmulti::the :default option is replaced only when absent", CORE, arg.line, txt in good,
+           "" if txt in good else f"`{txt}` tests the option's truthiness: (defmulti f identity :default false) dispatches unmatched values to :default, for which no method exists, instead of the method registered for false",
+           witness="(defmulti f identity :default false) (defmethod f false [_] :fallback) (f :other) => NotImplementedError")
+    ctx.ob("C18.R7", f"{CORE}::defmulti::the hierarchy option is passed as given", CORE, ctor[0].line, len(ctor[0].items) >= 5 and ":hierarchy" in ctor[0].items[4].text(),
+           "" if len(ctor[0].items) >= 5 and ":hierarchy" in ctor[0].items[4].text() else "the :hierarchy option no longer reaches the MultiFunction")
+
+
 SELFTEST = [
+    {"name": "isa? walks vectors of different lengths (the repaired defect)", "file": CORE, "expect": "C18.R7",
+     "old": "            (= (count tag) (count parent))\n", "new": ""},
+    {"name": "twin: isa? compares the lengths the other way round", "file": CORE, "expect": None,
+     "old": "            (= (count tag) (count parent))\n", "new": "            (= (count parent) (count tag))\n"},
+    {"name": "a class does not inherit its superclasses' derives (the repaired defect)", "file": CORE, "expect": "C18.R7",
+     "old": "                   (reduce* conj (conj acc super) (get-in h [:ancestors super] #{})))", "new": "                   (conj acc super))"},
+    {"name": "defmulti replaces a falsey :default (the repaired defect)", "file": CORE, "expect": "C18.R7",
+     "old": "~(get opts :default :default)", "new": "~(or (:default opts) :default)"},
+    {"name": "twin: defmulti default through the keyword's own default", "file": CORE, "expect": None,
+     "old": "~(get opts :default :default)", "new": "~(:default opts :default)"},
     {"name": "derive forgets the parent itself among the ancestors' descendants", "file": CORE, "expect": "C18.R5",
      "old": "                            (:descendants h)\n                            (conj parent-ancestors parent))})))", "new": "                            (:descendants h)\n                            parent-ancestors)})))"},
     {"name": "derive updates only tag, not its descendants", "file": CORE, "expect": "C18.R5",
